@@ -16,7 +16,7 @@ RULE = ("a case is (composite type built through the pydsdl constructors, value,
         "serialize, value returned by deserialize on those bytes (type-directed positional form, floats as binary64 patterns, every NaN "
         "one token), or the coarse exception class; implementation-alone predicates: decoded == value for exact values, re-encoding the "
         "decoded value reproduces the bytes, 8*len within min/max and residues mod 64 of the (inner) bit length set, relaxed form gives the "
-        "same bytes; non-trivial = the type has >= 2 value-carrying leaves or a nested composite/array and serialization succeeded; "
+        "same bytes, int<->integral-float / 0-1-for-bool input coercions (implementation alone, not modelled) give the same bytes; non-trivial = the type has >= 2 value-carrying leaves or a nested composite/array and serialization succeeded; "
         "distinct = by hash of the canonical case")
 THEOREMS_NOTE = ("C06_* theorems: the model's writer/reader refine the bit-list specification, round trip, produced length in the bit length "
                  "set, integer casts, defaults; the model's bytes/values are therefore the only admissible ones")
@@ -856,6 +856,41 @@ def relax(rng, t, v):
     return to_py(t, v)
 
 
+def coerce_variant(t, v):
+    """Python-side input coercions (not modelled): integral float for an integer field, int for a float field, 0/1 for bool.
+    Returns the coerced Python object, or None when nothing was coerced."""
+    changed = [False]
+
+    def go(t, v):
+        if v is None:
+            raise ValueError
+        k = t[0]
+        if k == "delim":
+            return go(t[1], v)
+        if k in ("u", "i") and v[0] == "I" and abs(v[1]) < 2 ** 52:
+            changed[0] = True
+            return float(v[1])
+        if k == "f" and v[0] == "F":
+            x = b2f(v[1])
+            if not math.isnan(x) and not math.isinf(x) and x == int(x) and abs(x) < 2 ** 52 and not (x == 0 and math.copysign(1.0, x) < 0):
+                changed[0] = True
+                return int(x)
+            return x
+        if k == "bool" and v[0] == "B":
+            changed[0] = True
+            return 1 if v[1] else 0
+        if k in ("fix", "var") and v[0] == "L":
+            return [go(t[1], x) for x in v[1]]
+        if k == "struct":
+            return {n: go(ft, x) for (n, ft), x in zip(named_fields(t), v[1]) if x is not None}
+        if k == "union" and v[1] >= 0:
+            return {t[2][v[1]][0]: go(t[2][v[1]][1], v[2])}
+        return to_py(t, v)
+
+    o = go(t, v)
+    return o if changed[0] else None
+
+
 def observe_deser(p, schema, t, data, hdr):
     try:
         o = p.deserialize(schema, data, with_delimiter_header=hdr)
@@ -919,6 +954,12 @@ def run_impl(cases):
                 fails.append("relaxed=True changes the encoding of the explicit form")
         except Exception as ex:  # pylint: disable=broad-except
             fails.append("relaxed input form raises %s" % type(ex).__name__)
+        try:
+            co = coerce_variant(t, v)
+            if co is not None and p.serialize(schema, co, with_delimiter_header=hdr) != bs:
+                fails.append("numeric input coercion (int<->integral float, 0/1 for bool) changes the encoding")
+        except Exception as ex:  # pylint: disable=broad-except
+            fails.append("numeric input coercion raises %s" % type(ex).__name__)
         if fails:
             obs["pred_fail"] = "; ".join(fails)
         out.append(obs)
